@@ -223,8 +223,9 @@ func TestVerifBounded(t *testing.T) {
 		zzGuard(t, "FormatCode("+filepath.Ext(name)+")", src, func() { FormatCode(name, src) })
 		zzGuard(t, "parser + type checker ("+filepath.Ext(name)+")", src, func() {
 			fset := token.NewFileSet()
-			f, _ := parser.ParseFile(nil, fset, name, src, 0)
-			if f == nil {
+			// as in the loader, the type checker only sees files that parsed without error
+			f, err := parser.ParseFile(nil, fset, name, src, 0)
+			if err != nil || f == nil {
 				return
 			}
 			conf := types.Config{Error: func(error) {}}
@@ -254,6 +255,55 @@ func TestVerifBounded(t *testing.T) {
 			half(name, src[:k]+w+" "+src[k:])
 			pos = k + len(w)
 		}
+	}
+	// the same mutations of the repository's WebAssembly text and native assembly sources below 2500 bytes
+	// (assembly under four CPU types, the wrong ones included)
+	mutants := func(src string, f func(string)) {
+		for i := 0; i <= len(src); i++ {
+			f(src[:i])
+		}
+		lines := strings.SplitAfter(src, "\n")
+		for i := range lines {
+			f(strings.Join(lines[:i], "") + strings.Join(lines[i+1:], ""))
+		}
+		pos := 0
+		for _, w := range strings.Fields(src) {
+			k := strings.Index(src[pos:], w) + pos
+			f(src[:k] + src[k+len(w):])
+			f(src[:k] + w + " " + src[k:])
+			pos = k + len(w)
+		}
+	}
+	nReal := 0
+	for _, root := range []string{"../waroot/examples", "../internal/native", "../internal/wat"} {
+		filepath.Walk(root, func(p string, info os.FileInfo, err error) error {
+			if err != nil || info.IsDir() || info.Size() > 2500 {
+				return nil
+			}
+			switch {
+			case strings.HasSuffix(p, ".wat"):
+				b, _ := os.ReadFile(p)
+				nReal++
+				mutants(string(b), func(s string) {
+					cases++
+					zzGuard(t, "wat ParseModule", s, func() { wparser.ParseModule("a.wat", []byte(s)) })
+				})
+			case strings.HasSuffix(p, ".s"):
+				b, _ := os.ReadFile(p)
+				nReal++
+				for _, cpu := range []abi.CPUType{abi.X64Unix, abi.ARM64, abi.RISCV64, abi.LOONG64} {
+					cpu := cpu
+					mutants(string(b), func(s string) {
+						cases++
+						zzGuard(t, fmt.Sprintf("native ParseFile(%v)", cpu), s, func() { nparser.ParseFile(cpu, ntoken.NewFileSet(), "a.s", []byte(s)) })
+					})
+				}
+			}
+			return nil
+		})
+	}
+	if nReal < 5 {
+		t.Fatalf("harness error: only %d WAT/assembly sources found", nReal)
 	}
 	// constant expressions through the type checker (parser + types.Config.Check as the loader calls it, one
 	// declaration per package so that an earlier type error cannot hide a later crash): every A op B and
@@ -297,5 +347,5 @@ func TestVerifBounded(t *testing.T) {
 			}
 		}
 	}
-	fmt.Printf("BOUNDED {\"cases\": %d, \"bound\": \"token sequences of length <= %d (.wa: 19 tokens; .wz: 13 tokens, length <= %d), <= %d (WAT, 19 tokens), <= %d (native assembly, 14 tokens, 2 CPUs; one token shorter over 34 tokens incl. directives and x64 operands for all 6 CPUs in 6 contexts); plus wider alphabets (.wa 53 tokens, WAT 45 tokens) one token shorter; type checking (LoadProgramFile) for sequences of <= %d tokens; statement-position sweeps inside a function body (34 .wz / 33 .wa tokens incl. every declaration keyword, length <= 3, thorough 4); every prefix of a WAT module with escapes; half-typed versions (every prefix, every line deleted, every word deleted or doubled) of the repository's example sources below 700 bytes (thorough 3000) through the formatter and parser + type checker; long padded inputs without extension; number literals of a radix prefix plus <= %d characters in 3 contexts; index/slice brackets of <= %d tokens; constant declarations A op B and op A over 20 boundary literals x 14 binary / 7 unary operators (7 declared types for some; divisions and shifts also inside a function body), one declaration per package through the parser and the type checker; no panic, each call returns within 10 s\"}\n", cases, nWa, nWa-1, nWat, nAsm, nCheck, nLit, nIdx)
+	fmt.Printf("BOUNDED {\"cases\": %d, \"bound\": \"token sequences of length <= %d (.wa: 19 tokens; .wz: 13 tokens, length <= %d), <= %d (WAT, 19 tokens), <= %d (native assembly, 14 tokens, 2 CPUs; one token shorter over 34 tokens incl. directives and x64 operands for all 6 CPUs in 6 contexts); plus wider alphabets (.wa 53 tokens, WAT 45 tokens) one token shorter; type checking (LoadProgramFile) for sequences of <= %d tokens; statement-position sweeps inside a function body (34 .wz / 33 .wa tokens incl. every declaration keyword, length <= 3, thorough 4); every prefix of a WAT module with escapes; half-typed versions (every prefix, every line deleted, every word deleted or doubled) of the repository's example sources below 700 bytes (thorough 3000) through the formatter and parser + type checker, and of its WAT and native assembly sources below 2500 bytes through their parsers (assembly under 4 CPU types); long padded inputs without extension; number literals of a radix prefix plus <= %d characters in 3 contexts; index/slice brackets of <= %d tokens; constant declarations A op B and op A over 20 boundary literals x 14 binary / 7 unary operators (7 declared types for some; divisions and shifts also inside a function body), one declaration per package through the parser and the type checker; no panic, each call returns within 10 s\"}\n", cases, nWa, nWa-1, nWat, nAsm, nCheck, nLit, nIdx)
 }
